@@ -302,6 +302,74 @@ def main():
                 drive(f'{wname} nested {depth} deep', h, 'deep', depth)
                 W.count('deep_nestings')
 
+        # ---- Annotated metadata that is not beartype's is ignored, whatever it is ---------------------
+        # (objects whose mere inspection raises: a weakref proxy whose referent died, a lazy proxy that is not bound
+        # yet, an object whose __class__ is a raising property - PEP 593 metadata is arbitrary by definition)
+        import weakref
+
+        class _Ref:
+            pass
+        _r = _Ref()
+        dead_proxy = weakref.proxy(_r)
+        del _r
+
+        class LazyProxy:
+            def __getattribute__(self, name):
+                raise RuntimeError('working outside of application context')
+
+        class RaisingClassAttr:
+            @property
+            def __class__(self):
+                raise ValueError('no class for you')
+        metas = [('dead weakref.proxy', dead_proxy), ('unbound lazy proxy', LazyProxy()), ('raising __class__', RaisingClassAttr()),
+                 ('plain object', object()), ('a list', [1]), ('a lambda', lambda: 0)]
+        for mi, (mname, m) in enumerate(metas):
+            shapes = [('Annotated[int, M]', lambda: typing.Annotated[int, m]), ("Annotated[int, M, 'x']", lambda: typing.Annotated[int, m, 'x']),
+                      ("Annotated[int, 'x', M]", lambda: typing.Annotated[int, 'x', m]),
+                      ('list[Annotated[int, M]]', lambda: list[typing.Annotated[int, m]]),
+                      ('Optional[Annotated[int, M]]', lambda: typing.Optional[typing.Annotated[int, m]]),
+                      ('dict[str, Annotated[int, M]]', lambda: dict[str, typing.Annotated[int, m]]),
+                      ('Annotated[list[int], M]', lambda: typing.Annotated[list[int], m])]
+            for si, (sname, mk) in enumerate(shapes):
+                try:
+                    h = mk()
+                except Exception:
+                    W.count('typing_refused_construction')
+                    continue
+                label = f'{sname} with M = {mname}'
+                W.count('foreign_metadata_hints')
+                W.evaluate((label,))
+                for api, fn in (('is_bearable', lambda: is_bearable(1, h)), ('die_if_unbearable', lambda: die_if_unbearable([1], h)),
+                                ('is_bearable(conf)', lambda: is_bearable(1, h, conf=BeartypeConf(is_random=False)))):
+                    W.count('api_calls')
+                    try:
+                        fn()
+                    except BeartypeHintViolation:
+                        pass
+                    except BeartypeException:
+                        W.count('outcome.beartype_exception')
+                    except Exception as e:   # noqa
+                        W.violation(('leak:' + engine.exc_site(e)) if isinstance(e, TypeError) and 'unhashable' in str(e)
+                                    else 'leak:foreign-annotated-metadata:' + type(e).__name__,
+                                    f'{api}({label}) leaked {type(e).__name__}: {short(e, 160)} (metadata that is not a beartype validator '
+                                    f'is to be ignored)', 'directed', 1000 + mi * 10 + si, dict(api=api, hint=label))
+                        break
+
+                def decorate_meta():
+                    def f(a):
+                        return a
+                    f.__annotations__ = {'a': h, 'return': h}
+                    return beartype.beartype(f)
+                try:
+                    decorate_meta()
+                except BeartypeException:
+                    W.count('outcome.beartype_exception')
+                except Exception as e:   # noqa
+                    W.violation(('leak:' + engine.exc_site(e)) if isinstance(e, TypeError) and 'unhashable' in str(e)
+                                else 'leak:foreign-annotated-metadata:' + type(e).__name__,
+                                f'@beartype({label}) leaked {type(e).__name__}: {short(e, 160)}', 'directed', 1000 + mi * 10 + si,
+                                dict(api='@beartype', hint=label))
+
         # ---- user exceptions propagate as the identical object ----------------------------
         class Planted(Exception):
             pass
